@@ -1405,7 +1405,7 @@ def feed (a : Acc) (line : String) : Acc :=
     { a with st := handleNid { a.st with ctx := s!"nid/{tget t "op"}" } t }
   | "alt" =>
     let a := flushAcc a
-    { a with st := handleAlt { (flushGroup a.st) with ctx := s!"alt/{tget t "scheme"}/{tget t "route"}", lastVerify := none } t }
+    { a with st := handleAlt { a.st with ctx := s!"alt/{tget t "scheme"}/{tget t "route"}", lastVerify := none } t }
   | "ck" =>
     let a := flushAcc a
     let a := { a with st := { a.st with nInputs := a.st.nInputs + 1 } }
